@@ -33,6 +33,7 @@ def D(f):
     def rel(p_, a_, q_, o_):
         return And(Select(Delta.get(m, 'dom').term, head(p_, a_)), Select(Select(Delta.get(m, 'val').term, head(p_, a_)), out(q_, o_)) > 0)
     return rel
+def cnt(f, p_, a_, q_, o_): return Select(Select(Delta.get(f._delta, 'val').term, head(p_, a_)), out(q_, o_))      # the list entry counted (trigger term)
 def wf_delta(f):
     m = f._delta; h = Const('wf_h', Head.sort()); x = Const('wf_x', Out.sort())
     return ForAll([h, x], Implies(Select(Delta.get(m, 'dom').term, h), Select(Select(Delta.get(m, 'val').term, h), x) >= 0))
@@ -49,7 +50,9 @@ def occurs(sq, x_): k = Const('oc_k', IntSort()); return Exists([k], And(0 <= k,
 W.contract(Contract('FST.add_transition', [('self', FST), ('s_from', FS), ('input_symbol', FSy), ('s_to', FS), ('output_symbols', SeqSy)], ret=TNone, modifies=('self',),
     requires=lambda o_: wf_delta(o_.self),
     ensures=lambda o_, r, n: And(wf_delta(n.self),
-        ForAll([p, a, q, o], D(n.self)(p, a, q, o) == Or(D(o_.self)(p, a, q, o), And(p == o_.s_from.term, a == o_.input_symbol.term, q == o_.s_to.term, o == o_.output_symbols.term))),
+        ForAll([p, a, q, o], Implies(D(n.self)(p, a, q, o), Or(D(o_.self)(p, a, q, o), And(p == o_.s_from.term, a == o_.input_symbol.term, q == o_.s_to.term, o == o_.output_symbols.term))), patterns=[cnt(n.self, p, a, q, o)]),
+        ForAll([p, a, q, o], Implies(D(o_.self)(p, a, q, o), D(n.self)(p, a, q, o)), patterns=[cnt(o_.self, p, a, q, o)]),
+        D(n.self)(o_.s_from.term, o_.input_symbol.term, o_.s_to.term, o_.output_symbols.term),
         n.self._states == Store(Store(o_.self._states.term, o_.s_from.term, True), o_.s_to.term, True),
         n.self._input_symbols == If(o_.input_symbol.term == EPS, o_.self._input_symbols.term, Store(o_.self._input_symbols.term, o_.input_symbol.term, True)),
         ForAll([b], n.self._output_symbols[b] == Or(o_.self._output_symbols[b], And(b != EPS, occurs(o_.output_symbols.term, b)))),
@@ -109,7 +112,6 @@ def rn(R, s__, i__): return Select(rval(R).term, key(s__, i__))
 def covers(R, f, idx): return ForAll([s_], Implies(f._states[s_], rdom(R)[key(s_, idx.term)]))
 def WFF(f): return And(wf_delta(f), ForAll([p, a, q, o], Implies(D(f)(p, a, q, o), And(f._states[p], f._states[q]))),
                        ForAll([s_], Implies(f._start_states[s_], f._states[s_])), ForAll([s_], Implies(f._final_states[s_], f._states[s_])))
-def cnt(f, p_, a_, q_, o_): return Select(Select(Delta.get(f._delta, 'val').term, head(p_, a_)), out(q_, o_))      # the list entry counted (trigger term)
 def copied_D(o_, n, cov):
     """transitions of the result = those it had + the renamed copies of the operand's transitions (as far as `cov`); three implications with triggers"""
     A, R, i = o_.self, o_.state_renaming, o_.idx.term; U0, U = o_.union_fst, n.union_fst
@@ -201,11 +203,37 @@ def cc_inv(level):
 W.contract(Contract('FST.concatenate', [('self', FST), ('other_fst', FST)], ret=FST, fresh_result=True, requires=lambda o_: And(WFF(o_.self), WFF(o_.other_fst)),
     ensures=concat_post, ghosts={'R': REN}, ghost_witness=lambda o_, e: {'R': e.state_renaming}, loops={'0': cc_inv('0'), '0.0': cc_inv('0.0')}))
 
+# ------------------------------------------------------------------ kleene_star (construction after fix b5fba3c: one fresh start/final state)
+STAR = Const('STR_star', FS.sort()); W.consts['str:star'] = Sym(FS, STAR)
+EMPo = Empty(SeqSy.sort())
+def star_struct(U, A, R, star, cov_s, cov_f):
+    copyA = lambda s__, a_, t__, oo: Exists([p, q], And(D(A)(p, a_, q, oo), s__ == rn(R, p, 0), t__ == rn(R, q, 0)))
+    enter = lambda s__, a_, t__, oo: Exists([p], And(A._start_states[p], cov_s(p), s__ == star, t__ == rn(R, p, 0), a_ == EPS, oo == EMPo))
+    leave = lambda s__, a_, t__, oo: Exists([p], And(A._final_states[p], cov_f(p), s__ == rn(R, p, 0), t__ == star, a_ == EPS, oo == EMPo))
+    return And(ForAll([s_, a, t_, o], Implies(D(U)(s_, a, t_, o), Or(copyA(s_, a, t_, o), enter(s_, a, t_, o), leave(s_, a, t_, o))), patterns=[cnt(U, s_, a, t_, o)]),
+               ForAll([p, a, q, o], Implies(D(A)(p, a, q, o), D(U)(rn(R, p, 0), a, rn(R, q, 0), o)), patterns=[cnt(A, p, a, q, o)]),
+               ForAll([p], Implies(And(A._start_states[p], cov_s(p)), D(U)(star, EPS, rn(R, p, 0), EMPo)), patterns=[A._start_states[p]]),
+               ForAll([p], Implies(And(A._final_states[p], cov_f(p)), D(U)(rn(R, p, 0), EPS, star, EMPo)), patterns=[A._final_states[p]]),
+               ForAll([s_], U._start_states[s_] == (s_ == star)), ForAll([s_], U._final_states[s_] == (s_ == star)))
+def star_ren(R, A):
+    return And(RInv(R), ForAll([k1], rdom(R)[k1] == Or(And(A._states[Key.get(Sym(Key, k1), '_0').term], Key.get(Sym(Key, k1), '_1').term == 0), k1 == key(STAR, 1))))
+def star_post(o_, r, n, g):
+    A, R = o_.self, g.R; Tt = lambda *x: BoolVal(True)
+    return And(star_ren(R, A), star_struct(r, A, R, rn(R, STAR, 1), Tt, Tt))
+def star_inv(which):
+    def inv(e, done):
+        A, R, U = e.self, e.state_renaming, e.fst_star; Tt = lambda *x: BoolVal(True); Ff = lambda *x: BoolVal(False)
+        cs, cf = ((lambda pp: done[pp]), Ff) if which == 's' else (Tt, (lambda pp: done[pp]))
+        return And(star_ren(R, A), wf_delta(U), e.star_state == rn(R, STAR, 1), star_struct(U, A, R, e.star_state.term, cs, cf))
+    return inv
+W.contract(Contract('FST.kleene_star', [('self', FST)], ret=FST, fresh_result=True, requires=lambda o_: WFF(o_.self), ensures=star_post,
+    ghosts={'R': REN}, ghost_witness=lambda o_, e: {'R': e.state_renaming}, loops={'0': star_inv('s'), '1': star_inv('f')}))
+
 W.ground_sorts = (FS.sort(), FSy.sort())
 W.special = {}
 _P = 'pyformlang/fst/fst.py'
 TARGETS = {'FST.add_transition': (_P, 'FST.add_transition'), 'FST.add_start_state': (_P, 'FST.add_start_state'), 'FST.add_final_state': (_P, 'FST.add_final_state'),
            'Renaming.add_state': (_P, 'FSTStateRemaining.add_state'), 'Renaming.get_name': (_P, 'FSTStateRemaining.get_name'), 'Renaming.add_states': (_P, 'FSTStateRemaining.add_states'),
            'FST._add_extremity_states_to': (_P, 'FST._add_extremity_states_to'), 'FST._copy_into': (_P, 'FST._copy_into'), 'FST._get_state_renaming': (_P, 'FST._get_state_renaming'),
-           'FST.union': (_P, 'FST.union'), 'FST.concatenate': (_P, 'FST.concatenate'),
+           'FST.union': (_P, 'FST.union'), 'FST.concatenate': (_P, 'FST.concatenate'), 'FST.kleene_star': (_P, 'FST.kleene_star'),
            'FST._add_transitions_to': (_P, 'FST._add_transitions_to'), 'FST._add_start_states_to': (_P, 'FST._add_start_states_to'), 'FST._add_final_states_to': (_P, 'FST._add_final_states_to')}
